@@ -57,7 +57,9 @@ def _superpauli_basis(nq=1):
         sci.indptr[i] = ptr
         ptr += ptr_inc
     sci.indptr[-1] = nnz
-    return Qobj(data.adjoint(),
+    # Row i holds the (unconjugated) column-stacking of the i-th Pauli
+    # string, so the basis matrix with these as columns is the transpose.
+    return Qobj(data.transpose(),
                 dims=dims,
                 superrep='super',
                 isherm=False,
